@@ -53,3 +53,21 @@ func seq(n int) []int {
 	}
 	return s
 }
+
+// Rare reports true with probability about 1/n. rapid's integer generators
+// are deliberately biased towards small values and range bounds, so
+// "IntRange(0, n) == 0" is far more frequent than 1/n; here the draw is
+// hashed first. The shrink target (0) is "not rare".
+func Rare(t *rapid.T, label string, n uint64) bool {
+	x := rapid.Uint64().Draw(t, label)
+	if x == 0 {
+		return false
+	}
+	x += 0x9e3779b97f4a7c15
+	x ^= x >> 33
+	x *= 0xff51afd7ed558ccd
+	x ^= x >> 33
+	x *= 0xc4ceb9fe1a85ec53
+	x ^= x >> 33
+	return x%n == 0
+}
